@@ -16,10 +16,17 @@ pub fn fill_private_batch_witness(pw: &mut PartialWitness<F>, targets: &PrivateB
 pub fn fill_public_batch_witness(pw: &mut PartialWitness<F>, targets: &PublicBatchCircuitTargets, proofs: &[ProofWithPublicInputs<F, C, D>], addr: [F; 4]) -> (r: Result<()>)
     ensures r.is_ok() ==> final(pw).pub_filled() == Some((proofs@, addr)),
 { unimplemented!() }
-/// rand::thread_rng / SliceRandom::shuffle: SOME permutation of the slice (TB-7c; the distribution is outside the model)
-pub struct ThreadRng { pub _p: u8 }
+/// rand::thread_rng / SliceRandom::shuffle (TB-7c): the slice becomes the generator's permutation of its old contents. Which permutation
+/// is an uninterpreted function of the generator state, so "the committed order is what rand's shuffle made of the WHOLE padded vector" is
+/// provable, while the DISTRIBUTION of that permutation (uniformity) is rand's and is assumed, not modelled.
+pub struct ThreadRng { pub state: Ghost<int> }
 pub mod rand { #[verifier::external_body] pub fn thread_rng() -> crate::ThreadRng { unimplemented!() } }
-pub trait VShuffle { spec fn vsh(&self) -> Seq<ProofWithPublicInputs<GoldilocksField, PoseidonGoldilocksConfig, 2>>; fn shuffle(&mut self, rng: &mut ThreadRng) ensures final(self).vsh().to_multiset() == old(self).vsh().to_multiset(), final(self).vsh().len() == old(self).vsh().len(); }
+pub uninterp spec fn shuffled_by(g: int, s: Seq<ProofWithPublicInputs<GoldilocksField, PoseidonGoldilocksConfig, 2>>) -> Seq<ProofWithPublicInputs<GoldilocksField, PoseidonGoldilocksConfig, 2>>;
+#[verifier::external_body]
+pub broadcast proof fn axiom_shuffle_is_permutation(g: int, s: Seq<ProofWithPublicInputs<GoldilocksField, PoseidonGoldilocksConfig, 2>>)
+    ensures (#[trigger] shuffled_by(g, s)).to_multiset() == s.to_multiset(), shuffled_by(g, s).len() == s.len(),
+{ }
+pub trait VShuffle { spec fn vsh(&self) -> Seq<ProofWithPublicInputs<GoldilocksField, PoseidonGoldilocksConfig, 2>>; fn shuffle(&mut self, rng: &mut ThreadRng) ensures final(self).vsh() == shuffled_by(old(rng).state@, old(self).vsh()); }
 impl VShuffle for Vec<ProofWithPublicInputs<GoldilocksField, PoseidonGoldilocksConfig, 2>> {
     open spec fn vsh(&self) -> Seq<ProofWithPublicInputs<GoldilocksField, PoseidonGoldilocksConfig, 2>> { self@ }
     #[verifier::external_body]
